@@ -15,7 +15,18 @@ import (
 
 // NewAddrs delivers addresses as the loop does for addrsFromTrackers / addPeersCommandC / dhtPeersC.
 func (v *VLoop) NewAddrs(addrs []*net.TCPAddr, source peersource.Source) {
-	v.guard(func() { v.T.handleNewPeers(addrs, source) })
+	v.guard(func() {
+		switch source {
+		case peersource.Tracker:
+			v.T.vCaseAddrsFromTrackers(addrs)
+		case peersource.Manual:
+			v.T.vCaseAddPeersCommandC(addrs)
+		case peersource.DHT:
+			v.T.vCaseDhtPeersC(addrs)
+		default:
+			panic("no loop case delivers addresses of this source")
+		}
+	})
 }
 
 // PumpTracker waits for the result of a tracker announce and handles it like the loop does.
@@ -25,7 +36,7 @@ func (v *VLoop) PumpTracker(d time.Duration) int {
 	defer timer.Stop()
 	select {
 	case addrs := <-v.T.addrsFromTrackers:
-		v.guard(func() { v.T.handleNewPeers(addrs, peersource.Tracker) })
+		v.guard(func() { v.T.vCaseAddrsFromTrackers(addrs) })
 		return len(addrs)
 	case <-timer.C:
 		return -1
@@ -73,6 +84,9 @@ func (v *VLoop) PrivState() VPrivState {
 	s.MagnetErr = err != nil
 	return s
 }
+
+// AnnounceCmd issues the announce command (as the loop would on announceCommandC).
+func (v *VLoop) AnnounceCmd() { v.guard(func() { v.T.vCaseAnnounceCommandC() }) }
 
 // PeerIDString is the peer id the torrent announces and handshakes with.
 func (v *VLoop) PeerIDString() string { return string(v.T.peerID[:]) }
